@@ -36,7 +36,14 @@ type Document struct {
 //
 // It also makes sure that resources are not added twice.
 func (d *Document) Include(res Resource) {
-	key := res.Get("id").(string) + " " + res.GetType().Name
+	// A resource is identified by its ID and its type. They are compared
+	// separately because they could not be told apart in a single string.
+	id := res.Get("id").(string)
+	typ := res.GetType().Name
+
+	same := func(r Resource) bool {
+		return r.Get("id").(string) == id && r.GetType().Name == typ
+	}
 
 	if len(d.Included) == 0 {
 		d.Included = []Resource{}
@@ -44,28 +51,24 @@ func (d *Document) Include(res Resource) {
 
 	if dres, ok := d.Data.(Resource); ok {
 		// Check resource
-		rkey := dres.Get("id").(string) + " " + dres.GetType().Name
-
-		if rkey == key {
+		if same(dres) {
 			return
 		}
 	} else if col, ok := d.Data.(Collection); ok {
 		// Check Collection
-		ctyp := col.GetType()
-		if ctyp.Name == res.GetType().Name {
-			for i := 0; i < col.Len(); i++ {
-				rkey := col.At(i).Get("id").(string) + " " + col.At(i).GetType().Name
-
-				if rkey == key {
-					return
-				}
+		//
+		// The type of the collection is not looked at because some
+		// collections (like Resources) do not have one.
+		for i := 0; i < col.Len(); i++ {
+			if same(col.At(i)) {
+				return
 			}
 		}
 	}
 
 	// Check already included resources
-	for _, res := range d.Included {
-		if key == res.Get("id").(string)+" "+res.GetType().Name {
+	for _, inc := range d.Included {
+		if same(inc) {
 			return
 		}
 	}
